@@ -72,7 +72,7 @@ section
 open PM.TI PM.Driver.OpsTreeInfo
 
 def loadsTextL (fo : FloatOracle) (text : Str) : Except Err TreeInfo :=
-  (IniText.parse text).bind (Legacy.deserialize fo)
+  (IniParse.parse Str.isPySpace text).bind (Legacy.deserialize fo)
 
 def tiCycle (fo : FloatOracle) (text : Str) : Json :=
   match loadsTextL fo text with
